@@ -181,7 +181,8 @@ fn elems(size: usize, o: &EnumOpts, allow_kv: bool, memo: &mut Memo) -> Vec<Spec
         if o.obscured { out.push(Elided(Box::new(Leaf(0)))); out.push(Encrypted(Box::new(Leaf(0)))); out.push(Compressed(Box::new(Leaf(0)))); }
     } else {
         if o.wrap {
-            for x in elems(size - 1, o, true, memo) { out.push(Wrap(Box::new(x))); }
+            // at most two wraps in a row
+            for x in elems(size - 1, o, true, memo) { if !matches!(&x, Wrap(y) if matches!(**y, Wrap(_))) { out.push(Wrap(Box::new(x))); } }
             for x in asserts(size - 1, o, memo) { out.push(Wrap(Box::new(x))); }
         }
         // node: subject (not itself a node) + 1..max assertions
@@ -328,4 +329,53 @@ pub fn specials() -> Vec<Spec> {
         // repeated content at several positions
         n(l(1), vec![a(l(2), l(1)), a(l(3), w(l(1))), a(l(2), l(4))]),
     ]
+}
+
+/// cached catalogue: every shape up to `max_size` elements (+ the hand-written larger ones)
+pub fn catalogue(max_size: usize, kv: bool, obscured: bool, with_specials: bool) -> std::sync::Arc<Vec<Spec>> {
+    use std::sync::{Arc, Mutex, OnceLock};
+    static CACHE: OnceLock<Mutex<std::collections::HashMap<(usize, bool, bool, bool), Arc<Vec<Spec>>>>> = OnceLock::new();
+    let m = CACHE.get_or_init(|| Mutex::new(Default::default()));
+    let mut g = m.lock().unwrap();
+    g.entry((max_size, kv, obscured, with_specials)).or_insert_with(|| {
+        let mut v = enumerate(&EnumOpts { max_size, max_assertions: 3, kv, decorated: true, obscured, wrap: true });
+        if with_specials { v.extend(specials()); }
+        Arc::new(v)
+    }).clone()
+}
+
+/// all ways to obscure one or two positions of a spec (elide / encrypt / compress), excluding the root
+pub fn obscure_at(s: &Spec, path: &[usize], how: usize) -> Option<Spec> {
+    fn wrap_obs(x: Spec, how: usize) -> Spec { match how { 0 => Elided(Box::new(x)), 1 => Encrypted(Box::new(x)), _ => Compressed(Box::new(x)) } }
+    if path.is_empty() { if s.is_obscured() { return None; } return Some(wrap_obs(s.clone(), how)); }
+    let (i, rest) = (path[0], &path[1..]);
+    match s {
+        Wrap(x) if i == 0 => Some(Wrap(Box::new(obscure_at(x, rest, how)?))),
+        Assert(p, o) if i == 0 => Some(Assert(Box::new(obscure_at(p, rest, how)?), o.clone())),
+        Assert(p, o) if i == 1 => Some(Assert(p.clone(), Box::new(obscure_at(o, rest, how)?))),
+        Node(sub, a) if i == 0 => Some(Node(Box::new(obscure_at(sub, rest, how)?), a.clone())),
+        Node(sub, a) if i <= a.len() => { let mut a2 = a.clone(); a2[i - 1] = obscure_at(&a[i - 1], rest, how)?; Some(Node(sub.clone(), a2)) }
+        _ => None,
+    }
+}
+/// child paths of a spec in spec order (node: 0 = subject, 1.. = assertions as listed)
+pub fn spec_paths(s: &Spec) -> Vec<Vec<usize>> {
+    fn rec(s: &Spec, cur: &mut Vec<usize>, out: &mut Vec<Vec<usize>>) {
+        out.push(cur.clone());
+        let kids: Vec<&Spec> = match s { Wrap(x) => vec![x], Assert(p, o) => vec![p, o], Node(sub, a) => { let mut v: Vec<&Spec> = vec![sub]; v.extend(a.iter()); v } _ => vec![] };
+        for (i, k) in kids.into_iter().enumerate() { cur.push(i); rec(k, cur, out); cur.pop(); }
+    }
+    let mut out = vec![]; rec(s, &mut vec![], &mut out); out
+}
+pub fn spec_at<'a>(s: &'a Spec, path: &[usize]) -> Option<&'a Spec> {
+    if path.is_empty() { return Some(s); }
+    let (i, rest) = (path[0], &path[1..]);
+    match s {
+        Wrap(x) if i == 0 => spec_at(x, rest),
+        Assert(p, _) if i == 0 => spec_at(p, rest),
+        Assert(_, o) if i == 1 => spec_at(o, rest),
+        Node(sub, _) if i == 0 => spec_at(sub, rest),
+        Node(_, a) if i <= a.len() => spec_at(&a[i - 1], rest),
+        _ => None,
+    }
 }
